@@ -234,7 +234,7 @@ func vDigitsInt(tag string, maxDigits int) (string, int) {
 
 // VH_C08_L2(kind, n, B, form): limited statements end to end; offset and count are decimal
 // digits that pass through the real lexer and parseLimit.
-// kind 0 plain, 1 ordered by value (distinct values), 2 grouped by key; form 0 "limit s, n", 1 "limit n".
+// kind 0 plain, 1 ordered by value (distinct values), 2 grouped by key, 3 grouped by value (groups interleave); form 0 "limit s, n", 1 "limit n".
 func VH_C08_L2(kind, n, B, form int) {
 	PlanBatchSize = B
 	keys := make([][]byte, n)
@@ -255,6 +255,9 @@ func VH_C08_L2(kind, n, B, form int) {
 		}
 	case 2:
 		base = "select key, count(1) where key >= 'a' group by key"
+	case 3:
+		// groups interleave in key order: every assignment of rows to groups is explored
+		base = "select value, count(1), max(key) where key >= 'a' group by value"
 	}
 	var s, c int
 	var lim string
